@@ -53,6 +53,7 @@ type upstreamResp struct {
 	header [][2]string
 	chunks [][]byte
 	abort  bool // the upstream dies after the last chunk: the body is never terminated
+	early  int  // informational responses (103 Early Hints) sent before the final one
 }
 
 type chain struct {
@@ -61,12 +62,41 @@ type chain struct {
 	seen    []seenRequest
 	hits    int64
 	up      *httptest.Server
-	px      *httptest.Server
-	pxz     *httptest.Server // compression configured
-	pxa     *httptest.Server // a basic auth scheme "b1" configured (user u, password password)
+	px      *frontSrv
+	pxz     *frontSrv // compression configured
+	pxa     *frontSrv // a basic auth scheme "b1" configured (user u, password password)
 	table   atomic.Value     // route.Table
 	matcher atomic.Value     // string: the configured proxy.matcher
 	noroute int
+}
+
+// The proxies listen the way fabio's own HTTP listeners do: through proxy.ListenAndServeHTTP.
+type frontLn struct{ a net.Addr }
+
+func (f frontLn) Addr() net.Addr { return f.a }
+
+type frontSrv struct{ Listener frontLn }
+
+func viaListener(h http.Handler) *frontSrv {
+	ln, err := hx.Listen("tcp", "127.0.0.1:0")
+	if err != nil {
+		panic(err)
+	}
+	addr := ln.Addr()
+	ln.Close()
+	go func() {
+		if err := proxy.ListenAndServeHTTP(config.Listen{Addr: addr.String(), Proto: "http"}, h, nil); err != nil {
+			fmt.Println("VERIF-INCONCLUSIVE front listener:", err)
+		}
+	}()
+	for i := 0; i < 400; i++ {
+		if c, err := net.DialTimeout("tcp", addr.String(), 100*time.Millisecond); err == nil {
+			c.Close()
+			return &frontSrv{Listener: frontLn{addr}}
+		}
+		time.Sleep(5 * time.Millisecond)
+	}
+	panic("VERIF-INCONCLUSIVE front listener did not come up")
 }
 
 func newChain() *chain {
@@ -78,6 +108,11 @@ func newChain() *chain {
 		c.seen = append(c.seen, seenRequest{r.Method, r.RequestURI, r.Host, r.Header.Clone(), body})
 		resp := c.resp
 		c.mu.Unlock()
+		for i := 0; i < resp.early; i++ {
+			w.Header().Set("Link", "</style.css>; rel=preload; as=style")
+			w.WriteHeader(http.StatusEarlyHints)
+			w.Header().Del("Link")
+		}
 		for _, kv := range resp.header {
 			w.Header().Add(kv[0], kv[1])
 		}
@@ -100,14 +135,14 @@ func newChain() *chain {
 		}
 		return c.table.Load().(route.Table).Lookup(r, "", route.Picker["rr"], route.Matcher[m], cache, false)
 	}
-	c.px = httptest.NewServer(&proxy.HTTPProxy{
+	c.px = viaListener(&proxy.HTTPProxy{
 		Stats:     wire.Stats(),
 		Config:    config.Proxy{NoRouteStatus: 0},
 		Transport: &http.Transport{DisableCompression: true, MaxIdleConnsPerHost: 4},
 		Lookup:    lookup,
 	})
 	// the same proxy with proxy.gzip.contenttype configured
-	c.pxz = httptest.NewServer(&proxy.HTTPProxy{
+	c.pxz = viaListener(&proxy.HTTPProxy{
 		Stats:     wire.Stats(),
 		Config:    config.Proxy{GZIPContentTypes: regexp.MustCompile(`^(text/.*|application/json)(;.*)?$`)},
 		Transport: &http.Transport{DisableCompression: true, MaxIdleConnsPerHost: 4},
@@ -124,7 +159,7 @@ func newChain() *chain {
 	if err != nil {
 		panic(err)
 	}
-	c.pxa = httptest.NewServer(&proxy.HTTPProxy{
+	c.pxa = viaListener(&proxy.HTTPProxy{
 		Stats:       wire.Stats(),
 		Transport:   &http.Transport{DisableCompression: true, MaxIdleConnsPerHost: 4},
 		Lookup:      lookup,
@@ -266,7 +301,9 @@ func genClientReq(t *rapid.T, rt routeSpec) clientReq {
 	}
 	q.rawPath = p
 	if rapid.IntRange(0, 2).Draw(t, "hasq") > 0 {
-		q.query = rapid.SampledFrom([]string{"a=1&b", "a=1", "x=%20y&z=%2F", "q", "a=b=c", "%41=%42", "a=1&a=2", "a+b=c+d", "a=1&", "&a=1", "&&", "&", "a=1&&b=2", "=", "a=1&="}).Draw(t, "query")
+		q.query = rapid.SampledFrom([]string{"a=1&b", "a=1", "x=%20y&z=%2F", "q", "a=b=c", "%41=%42", "a=1&a=2", "a+b=c+d", "a=1&", "&a=1", "&&", "&", "a=1&&b=2", "=", "a=1&=",
+			// separators and characters that are legal in a query and mean something to some servers
+			"a=1;b=2", "id=7;jsessionid=ABC", ";", "a=1;&b=2;", "x=a+b;y=c%3Bd", "p=/a/b?c", "q=a,b,c", "q=a:b@c", "q='x'", "q=(1)", "q=*", "q=!$"}).Draw(t, "query")
 	}
 	for i, n := 0, rapid.IntRange(0, 8).Draw(t, "nhdr"); i < n; i++ {
 		name := rapid.SampledFrom(hdrNames).Draw(t, "hname")
@@ -335,6 +372,9 @@ func genUpstreamResp(t *rapid.T, method string) upstreamResp {
 		val := rapid.SampledFrom([]string{"a=1; Path=/", "b=2; HttpOnly", "v", "text/plain", "no-cache", "\"tag\"", "/elsewhere?x=1", "Basic realm=\"r\"", "Accept", "de, en"}).Draw(t, "rhval")
 		r.header = append(r.header, [2]string{name, val})
 	}
+	if rapid.IntRange(0, 5).Draw(t, "early-hints") == 0 {
+		r.early = rapid.IntRange(1, 2).Draw(t, "nearly")
+	}
 	if rapid.IntRange(0, 5).Draw(t, "preencoded") == 0 {
 		// the upstream's body is already encoded (the bytes are opaque to a proxy)
 		r.header = append(r.header, [2]string{"Content-Encoding", rapid.SampledFrom([]string{"br", "deflate", "gzip", "zstd", "identity"}).Draw(t, "cenc")})
@@ -398,7 +438,11 @@ func exchange(addr string, wire []byte, method string) (status int, hdr http.Hea
 	defer c.Close()
 	c.SetDeadline(time.Now().Add(60 * time.Second))
 	go c.Write(wire)
-	resp, err := http.ReadResponse(bufio.NewReader(c), &http.Request{Method: method})
+	br := bufio.NewReader(c)
+	resp, err := http.ReadResponse(br, &http.Request{Method: method})
+	for err == nil && resp.StatusCode >= 102 && resp.StatusCode < 200 {
+		resp, err = http.ReadResponse(br, &http.Request{Method: method}) // informational responses precede the final one
+	}
 	if err != nil {
 		return 0, nil, nil, err
 	}
